@@ -22,11 +22,12 @@ func envInt(name string, def int) int {
 
 // TestWorker executes a batch of runs described by environment variables and
 // writes one JSON line per run to VERIF_OUT.
-//   VERIF_PROP       property id
-//   VERIF_JOBS       file with one RunSpec JSON per line (core scenarios / replays), or
-//   VERIF_FROM/TO    run index range for seeded random runs, VERIF_SEED base seed
-//   VERIF_DEADLINE   unix time (real) after which no new run is started
-//   VERIF_MAXRUNS    recycle bound
+//
+//	VERIF_PROP       property id
+//	VERIF_JOBS       file with one RunSpec JSON per line (core scenarios / replays), or
+//	VERIF_FROM/TO    run index range for seeded random runs, VERIF_SEED base seed
+//	VERIF_DEADLINE   unix time (real) after which no new run is started
+//	VERIF_MAXRUNS    recycle bound
 func TestWorker(t *testing.T) {
 	prop := os.Getenv("VERIF_PROP")
 	if prop == "" {
